@@ -140,6 +140,13 @@ func RunAll(run *hlib.Run, prop string, sigPrefixes []string, n int) {
 		for _, l := range tl[1:] {
 			run.Emit(l, "ok")
 		}
+		sops, sans := SyncLines(res)
+		for i := range sops {
+			run.Emit(sops[i], sans[i])
+		}
+		if len(sops) > 0 {
+			run.Count("sync-shim-lines")
+		}
 		traces++
 	}
 	run.Set("traces_validated", traces)
